@@ -68,7 +68,7 @@ type Pipe struct {
 	depth  int
 	nq     int
 	dead   bool
-	Poisoned bool // a stray "canceled" error was seen: answers are Unknown until restarted
+	Corrupt bool // an error line was seen: assertion stack unreliable, restart required
 	Logic  string
 	Log    io.Writer
 	logBuf *strings.Builder
@@ -94,6 +94,12 @@ func NewPipe(logic string) (*Pipe, error) {
 		return nil, err
 	}
 	p := &Pipe{cmd: cmd, in: in, out: bufio.NewReaderSize(out, 1<<20), P: term.NewPrinter()}
+	if v := os.Getenv("VERIF_PIPELOG"); v != "" {
+		// debugging aid: transcript of everything sent to the incremental solver
+		if f, err := os.OpenFile(fmt.Sprintf("%s.%d.%d", v, os.Getpid(), time.Now().UnixNano()%1000000), os.O_CREATE|os.O_WRONLY|os.O_TRUNC, 0o644); err == nil {
+			p.Log = f
+		}
+	}
 	p.send("(set-option :global-declarations true)\n(set-option :produce-models true)\n")
 	if logic != "" {
 		p.send("(set-logic " + logic + ")\n")
@@ -155,24 +161,23 @@ func (p *Pipe) readLine() (string, error) {
 }
 
 // Check runs (check-sat) with the given timeout.
-// The answer is delimited by an echo marker: z3 can emit a stray
-// `(error "... canceled")` line when its timeout timer fires late (seen with
-// FP queries and short timeouts); reading exactly one line per query would then
-// pair later queries with earlier answers. After such an error the pipe is
-// poisoned: every further Check answers Unknown (callers treat that
-// conservatively) until the engine restarts the pipe.
 func (p *Pipe) Check(timeout time.Duration) Result {
 	if p.dead {
 		return Error
 	}
-	if p.Poisoned {
-		return Unknown
-	}
 	start := time.Now()
 	p.nq++
+	// The answer is delimited by an echo marker. z3's timeout timer can fire
+	// late and cancel a command that FOLLOWS the timed-out check-sat (observed:
+	// `(error "line N column 7: canceled")` for a (push 1)), which silently
+	// corrupts the assertion stack and, without the marker, shifts every later
+	// answer by one. Any error line between two markers therefore marks the pipe
+	// as Corrupt; the caller must discard it (Engine.pipeQuery restarts the
+	// solver and re-asserts the path condition) and must not trust this answer.
 	marker := fmt.Sprintf("verif-sync-%d", p.nq)
 	p.send(fmt.Sprintf("(set-option :timeout %d)\n(check-sat)\n(echo \"%s\")\n", timeout.Milliseconds(), marker))
-	ans, errLine := "", ""
+	res, got := Error, false
+	var first string
 	for {
 		l, err := p.readLine()
 		if err != nil {
@@ -182,37 +187,28 @@ func (p *Pipe) Check(timeout time.Duration) Result {
 		if l == marker || l == "\""+marker+"\"" {
 			break
 		}
-		switch {
-		case l == "sat" || l == "unsat" || l == "unknown":
-			ans = l
-		case strings.HasPrefix(l, "(error"):
-			errLine = l
+		if first == "" {
+			first = l
+		}
+		switch l {
+		case "sat", "unsat", "unknown":
+			if !got {
+				got = true
+				res = map[string]Result{"sat": Sat, "unsat": Unsat, "unknown": Unknown}[l]
+			}
 		default:
-			fmt.Fprintln(os.Stderr, "z3 pipe unexpected:", l)
-			errLine = l
+			p.Corrupt = true
+			fmt.Fprintln(os.Stderr, "z3 pipe:", l)
 		}
 	}
 	Global.add("z3new-pipe", time.Since(start))
 	if os.Getenv("VERIF_SLOWQ") != "" {
-		fmt.Fprintf(os.Stderr, "Q %d ms %s %s\n", time.Since(start).Milliseconds(), ans, errLine)
+		fmt.Fprintf(os.Stderr, "Q %d ms %s\n", time.Since(start).Milliseconds(), first)
 	}
-	if errLine != "" {
-		if strings.Contains(errLine, "canceled") {
-			p.Poisoned = true
-			return Unknown
-		}
-		fmt.Fprintln(os.Stderr, "z3 pipe:", errLine)
+	if p.Corrupt || !got {
 		return Error
 	}
-	switch ans {
-	case "sat":
-		return Sat
-	case "unsat":
-		return Unsat
-	case "unknown":
-		return Unknown
-	}
-	return Error
+	return res
 }
 
 // CheckAssuming: push, assert t, check, pop.
